@@ -35,7 +35,11 @@ def scenarios(tier, seed):
     out.append(scenario("DDR3-phases", "DDR3", sets[0], seed + 5, tech=dict(tREFI=1600), phy=dict(cl_cwl=[7, 6])))
     # write data phase 0 on a multi-phase PHY: the write-side command phase wraps around to the last phase
     out.append(scenario("DDR3_200-wrphase0", "DDR3_200", sets[1], seed + 8, tech=dict(tREFI=1600), ctrl=dict(with_auto_precharge=False)))
+    # more than 10 column bits: column bit 10 must travel on A11 (A10 is the auto-precharge / all-banks flag)
+    out.append(scenario("DDR3-cols2048", "DDR3", sets[1], seed + 9, tech=dict(tREFI=1600), ncols=2048, nrows=8192,
+                        ctrl=dict(with_auto_precharge=False)))
     if tier == "thorough":
+        out.append(scenario("DDR-cols4096", "DDR", sets[0], seed + 10, tech=dict(tREFI=1600), ncols=4096, nrows=8192))
         out.append(scenario("DDR3-phases2", "DDR3", sets[1], seed + 6, tech=dict(tREFI=1600), phy=dict(cl_cwl=[10, 7])))
         out.append(scenario("DDR4-phases", "DDR4", sets[0], seed + 7, tech=dict(tREFI=1600), phy=dict(cl_cwl=[11, 9])))
     return out + lockstep_scenarios(tier, seed)
